@@ -12,6 +12,10 @@ REPO = os.environ.get("VERIF_REPO", "/repo")
 BIN = BUILD if os.path.realpath(REPO) == "/repo" else os.path.join(BUILD, "alt")
 
 
+# evidence and replay files of runs against a scratch tree never overwrite those of /repo
+OUTROOT = ROOT if BIN == BUILD else BIN
+
+
 def exe(cmd):
     return os.path.join(BIN, cmd)
 
@@ -249,8 +253,8 @@ TRUSTED_BASE = [
 
 
 def write_evidence(pid, tier, seed, wall, coverage, assumptions, violations, level="proof"):
-    os.makedirs(os.path.join(ROOT, "evidence"), exist_ok=True)
+    os.makedirs(os.path.join(OUTROOT, "evidence"), exist_ok=True)
     ev = dict(property_id=pid, tier=tier, seed=seed, level=level, coverage=coverage,
               assumptions=assumptions, wall_s=round(wall, 2), violations=violations)
-    json.dump(ev, open(os.path.join(ROOT, "evidence", pid + ".json"), "w"), indent=1, sort_keys=True)
+    json.dump(ev, open(os.path.join(OUTROOT, "evidence", pid + ".json"), "w"), indent=1, sort_keys=True)
     return ev
